@@ -2,6 +2,7 @@ package cli
 
 import (
 	"fmt"
+	"path"
 	"regexp"
 	"strconv"
 	"strings"
@@ -205,7 +206,7 @@ func oracleRestore(c *Ctx) error {
 		if a == "--staged" {
 			staged = true
 		} else {
-			args = append(args, a)
+			args = append(args, path.Clean(a))
 		}
 	}
 	pre, post := c.Pre, c.Post
